@@ -7,7 +7,7 @@ RUNS=${1:-20000}
 "$DIR/check" build || exit 2
 BIN="$DIR/harness/target/release/simcheck"
 rc=0
-for P in C01 C03 C04 C06 C07 C08 C09 C10 C12 C14 C15 C19 C20 H:C01 H:C03 H:C07 H:C09 H:C10 H:C14 H:C15 H:C19; do
+for P in C01 C03 C04 C06 C07 C08 C09 C10 C12 C14 C15 C19 C20 H:C01 H:C03 H:C07 H:C09 H:C10 H:C12 H:C14 H:C15 H:C19; do
   R=$RUNS; [ "$P" = C20 ] && R=$((RUNS/10))
   for SEED in 1 20260926; do
     A=$("$BIN" run $P --runs $R --workers 4  --seed $SEED --no-evidence --verif-dir "$DIR" | grep '^done' | sed 's/.*batch_digest=\([0-9a-f]*\).*/\1/')
